@@ -85,7 +85,7 @@ func blockerFrameName(t string) string {
 
 // Case is one program of the space (JSON: the replay contract).
 type Case struct {
-	Family string   `json:"family"`        // tail | blocked | transparency-only | multiform | sequence
+	Family string   `json:"family"`        // tail | blocked | transparency-only | multiform | sequence | chain
 	Def    string   `json:"def,omitempty"` // "" (top-level defun) | labels (the loop is a set of labels-bound closures)
 	Shape  []string `json:"shape"`         // outermost first
 	Topo   int      `json:"topo"`          // cycle length 1..3
@@ -109,6 +109,11 @@ type Case struct {
 	// single (not serialised): run just ONE loop, started by this function;
 	// used to establish that no single loop of the sequence reaches the limit.
 	single string
+	// chain family only: Chain names the explored dimension for the class,
+	// "nest:<token>" (Shape is <token> repeated d times, or the 15 positions in
+	// rotation for "mixed") or "ring:<wrapper>" (Topo functions in a ring, each
+	// body wrapped by Shape).
+	Chain string `json:"chain,omitempty"`
 	// Ns is set for the constant-stack relation: the iteration counts whose
 	// maximum stack heights were compared.
 	Ns     []int  `json:"ns,omitempty"`
@@ -119,6 +124,10 @@ type Case struct {
 // tokens is the shape as used for violation classes and minimal-first
 // reporting: a labels-defined loop is marked by a leading pseudo-token.
 func (c Case) tokens() []string {
+	if c.Family == "chain" {
+		// the nesting depth / ring size is the explored dimension, not part of the class
+		return []string{"CHAIN-" + c.Chain}
+	}
 	var t []string
 	if c.Def == "labels" {
 		t = append(t, "LABELS-LOOP")
@@ -694,3 +703,27 @@ func optsOf(c Case) runOpts {
 	}
 	return ro
 }
+
+// ---------------------------------------------------------------------------
+// chain family: the LENGTH of the terminal chain is the explored dimension.
+
+// nestShape is token repeated d times; "mixed" rotates through the 15 positions.
+func nestShape(token string, d int) []string {
+	out := make([]string, d)
+	for i := range out {
+		if token == "mixed" {
+			out[i] = terminalTokens[i%len(terminalTokens)]
+		} else {
+			out[i] = token
+		}
+	}
+	return out
+}
+
+// ringWrappers are the body wrappers of ring functions, by name.
+var ringWrappers = map[string][]string{
+	"special-forms":  {"if-then", "let-body", "cond-else", "progn-last"},
+	"calls-and-lets": {"funcall", "let*-body", "apply", "or-last"},
+}
+
+var ringWrapperNames = []string{"special-forms", "calls-and-lets"}
